@@ -28,20 +28,31 @@ def nsValueOK (v : Str) : Bool :=
    (hasPrefix star v && !(v.drop 1).contains '*' && v.drop 1 != [] && v.drop 1 != "a".toList &&
      v.drop 1 != "sa".toList))
 
-/-- Side conditions on a principal-side value under which its translation is proved exact. -/
-def prinValueOK (g : Gen) (v : Str) : Bool :=
-  match g with
-  | .srcNamespace => nsValueOK v
-  | .srcServiceAccount pns => !pns.contains '/'
-  | .srcTrustDomain => !v.contains '/'
-  | _ => true
-
 /-- The peer identity (if any) has the Istio form. -/
-def Request.peerOK (r : Request) : Bool :=
-  (r.peer.all fun i => i.wf && i.nsSafe) &&
-  -- no request header with an empty value (for those the generated `present_match` of the value
-  -- `*` differs from the documented "not empty": finding 4)
-  (r.http.all fun h => !h.host.isEmpty && !h.method.isEmpty && h.headers.all fun e => !e.2.isEmpty)
+def Request.peerWF (r : Request) : Bool := r.peer.all (·.wf)
+
+/-- ... and neither its trust domain nor its namespace is literally `ns` (finding 1, anchor form). -/
+def Request.peerNs (r : Request) : Bool := r.peer.all fun i => i.wf && i.nsSafe
+
+/-- The header `request.headers[<name>]` designates is absent from the request or has a non-empty
+    value (for an empty value the generated `present_match` of the value `*` differs from the
+    documented "not empty": finding 4). -/
+def headerNonEmpty (key : Str) (r : Request) : Bool :=
+  r.http.all fun h =>
+    match extractNameInBrackets (trimPrefix attrRequestHeader key) with
+    | some name => (lookupHeader name h).all (!·.isEmpty)
+    | none => true
+
+/-- Side conditions, per (attribute, value, request), under which the translation of a principal-side
+    value is proved exact.  They only concern the part of the request the matcher reads: a policy
+    that uses none of these attributes puts no condition on the request at all. -/
+def prinValueOK (g : Gen) (key v : Str) (r : Request) : Bool :=
+  match g with
+  | .srcNamespace => nsValueOK v && r.peerNs
+  | .srcServiceAccount pns => !pns.contains '/' && r.peerWF
+  | .srcTrustDomain => !v.contains '/' && r.peerWF
+  | .requestHeader => v != star || headerNonEmpty key r
+  | _ => true
 
 def permTranslated (tcp : Bool) (r : MRule) : Bool :=
   if r.g.extended then
@@ -88,7 +99,7 @@ def Gen.extInScope : Gen → Bool
     generators proved exact (JWT audiences / presenter / claims, experimental metadata). -/
 def mruleInScope (req : Request) (mr : MRule) : Bool :=
   if mr.g = .requestPrincipal then req.jwtOK && (mr.values ++ mr.notValues).all (rpValueOK · req)
-  else (!mr.g.extended || mr.g.extInScope) && (mr.values ++ mr.notValues).all (prinValueOK mr.g)
+  else (!mr.g.extended || mr.g.extInScope) && (mr.values ++ mr.notValues).all (prinValueOK mr.g mr.key · req)
 
 /-- The model after `MigrateTrustDomain`. -/
 def migratedModel (o : BuildOpts) (pns : Str) (r : Rule) (m : Model) : Model :=
@@ -158,7 +169,7 @@ def entriesDistinctB (o : BuildOpts) (ps : List Policy) : Bool :=
 /-- All hypotheses of the main theorems as one computable check on (options, policies, request). -/
 def hypsB (o : BuildOpts) (ps : List Policy) (req : Request) : Bool :=
   (ps.all fun p => p.rules.all fun r => migrationOKB o p.ns r && ruleInScope o req p.ns r) &&
-  req.peerOK && entriesDistinctB o ps
+  entriesDistinctB o ps
 
 def customEntriesDistinctB (o : BuildOpts) (ps : List Policy) : Bool :=
   Decidable.decide ((((ps.filter (·.action == .custom)).flatMap (customEntries o)).map (·.1)).Nodup)
@@ -175,7 +186,7 @@ def effectiveRule (tcp : Bool) (p : Policy) (r : Rule) : Rule :=
 def hypsOnB (o : BuildOpts) (ps : List Policy) (req : Request) : Bool :=
   (ps.all fun p => p.rules.all fun r =>
       migrationOKB o p.ns (effectiveRule o.forTCP p r) && ruleInScope o req p.ns (effectiveRule o.forTCP p r)) &&
-  req.peerOK && entriesDistinctB o ps && customEntriesDistinctB o ps
+  entriesDistinctB o ps && customEntriesDistinctB o ps
 
 def translatableB (o : BuildOpts) (ps : List Policy) : Bool :=
   ps.all fun p => p.rules.all (ruleTranslatedB o p.ns)
